@@ -1,6 +1,6 @@
 """C01 -- Extended zones: offset, DST flag, abbreviation equal the TZ rules at every instant."""
 import os
-from .. import common, tzconf
+from .. import common, tzconf, extproc
 
 LEVEL = 'model_checking'
 
@@ -11,7 +11,10 @@ def run(tier):
     grid = int(os.environ.get('VERIF_GRID', 60 if tier == 'quick' else 1))
     fstride = 97 if tier == 'quick' else 7
     tzconf.check_database(chk, exe, 'extended', os.path.join(common.REPO, 'src/ace_time/zonedbx'), grid, fstride, 'zonedbx')
-    chk.add(exhaustive=True, rule='every zone of zonedbx swept at %d s over 2000..2049, each change bisected to the second' % grid)
+    # algorithm level: ExtProc.tla (the init(year) algorithm) bound to the real processor's tables for every zone x year
+    # 1999..2050, its invariants, and its step function judged by TzSem.tla
+    extproc.check_shipped(chk)
+    chk.add(exhaustive=True, rule='every zone of zonedbx swept at %d s over 2000..2049, each change bisected to the second, judged by TzSem.tla; ExtProc.tla: the finished table (start, offsets, abbreviation, local start/until), match count and pool high-water mark of ExtendedZoneProcessor::init(y) equal the model for every zone x y in 1999..2050, and the model refines TzSem on every zone' % grid)
     chk.assume('breakpoints are minute aligned (checked: every spec/zic/impl breakpoint has sec % 60 == 0 is NOT assumed; all changes are bisected to the second and compared exactly)')
     chk.assume('zic/zdump (glibc 2.36) is the oracle; TzSem.tla must accept zic traces for the same lines else exit 2')
     return chk.finish()
